@@ -21,6 +21,21 @@ code -> spec : seeded random sequential / depthwise-separable 2-D networks -> MP
                recomputed from the logged operands with big-number arithmetic), the final-logits clause, and recomputes
                scale, zero-point and requantised output of the sampled elements.
 
+life cycle   : IntegerizeLife (TLC): every history (forward / load_state_dict / optimizer step / in-place weight edit /
+               conversions with different option sets, bounded length) between MPS.export() and integerize_arch; invariants:
+               integer weights and s_w (hence scale / shift / integer bias) come from the CURRENT weights whatever the age
+               of the weight-quantiser statistics, the options are those of THIS call (declared defaults where omitted), every
+               Quant layer is replaced for every nesting of the model, process defaults and the caller's kwargs are untouched;
+               expected-to-fail variants "stale statistics", "sticky defaults", "flat names only".  Every enumerated history
+               of maximal length that ends with a conversion is replayed on the real library - each in a process of its own,
+               forked from the driver, so that process-level state cannot leak between scenarios - on flat models and on
+               models with nested containers (nn.Sequential root, blocks in Sequentials, ModuleDict with word / numeric keys,
+               ModuleList, layers reachable through two attribute paths), Conv2d and Linear, both backends; per conversion
+               TLC judges (IntegerizeTrace, kind "life", walking the history with the life-cycle operators of IntegerArith):
+               type census of the graph of the result, weights version behind s_w and behind the integer weights (reference
+               values: the layer's own weight quantiser run on the snapshot of every version), options the layers were built
+               with, caller's kwargs unchanged, and all clauses of a network scenario.
+
 Stated tolerances:
   * level clause: |diff| <= max(1 + floor(B), gap) with, per element,
       B = |acc+b| * |scale/2^shift - T|                    (the layer's own scale/shift approximation; T = float32 target)
@@ -206,6 +221,63 @@ def net_scenarios(rng: random.Random, n: int) -> List[Dict[str, Any]]:
     return scs
 
 
+# ------------------------------------------------------------------------------------------------
+# histories between export() and integerize_arch (IntegerizeLife)
+# ------------------------------------------------------------------------------------------------
+FLAT_LIFE_LAYERS = [
+    {"op": "conv", "out": 3, "k": [3, 3], "s": 1, "p": [1, 1], "d": [1, 1], "dws": False, "bias": False, "bn": True,
+     "relu": True, "wb": 8, "ab": 8, "clip": 2500},
+    {"op": "conv", "out": 3, "k": [3, 3], "s": 1, "p": [1, 1], "d": [1, 1], "dws": True, "bias": True, "bn": False,
+     "relu": True, "wb": 8, "ab": 8, "clip": 2500},
+    {"op": "flat"},
+    {"op": "lin", "out": 4, "bias": True, "bn": False, "relu": True, "wb": 8, "ab": 8, "clip": 2500},
+    {"op": "lin", "out": 3, "bias": True, "bn": False, "relu": False, "wb": 8, "ab": 8, "clip": 2500}]
+LIFE_BITS = [(8, 8), (4, 4), (8, 4), (2, 8)]
+
+
+def life_model(nest: str, variant: int) -> Dict[str, Any]:
+    wb, ab = LIFE_BITS[variant % len(LIFE_BITS)]
+    if nest == "flat":
+        layers = [dict(l, **({"wb": wb, "ab": ab} if l["op"] in ("conv", "lin") else {})) for l in FLAT_LIFE_LAYERS]
+        return {"nest": "flat", "c0": 2, "h": 6, "w": 6, "in_bits": ab, "wseed": 11 + variant, "gain": 2.0, "layers": layers}
+    return {"nest": nest, "c0": 2, "h": 6, "w": 6, "wb": wb, "ab": ab, "wseed": 11 + variant, "gain": 2.0}
+
+
+def _life_scenarios(states: List[Dict[str, Any]], maxlen: int, n_variants: int, rng: random.Random, all_nests: bool):
+    """One scenario per enumerated history of maximal length that ends with a conversion (every shorter history ending
+    with a conversion is a prefix of one of them, and every conversion of a history is observed)."""
+    hs = sorted((s for s in states if len(s["h"]) == maxlen and s["h"][-1]["a"] == "int"), key=_canon)
+    scs = []
+    for i, s in enumerate(hs):
+        if s["nest"] == "any":
+            nests = list(intnet.NESTS) if all_nests else [intnet.NESTS[i % len(intnet.NESTS)]]
+        else:
+            nests = [s["nest"]]
+        for j, nest in enumerate(nests):
+            ev = [{"a": e["a"], "k": e["k"]} if e["a"] == "upd" else
+                  ({"a": "int", "backend": e["backend"], "sb": e["sb"], "sp": e["sp"]} if e["a"] == "int" else {"a": "fwd"})
+                  for e in s["h"]]
+            scs.append({"kind": "life", "model": life_model(nest, (i // len(intnet.NESTS) + j) % n_variants),
+                        "xseed": rng.randrange(1 << 30), "nsamp": 2, "ev": ev})
+    return scs
+
+
+def _life_nontrivial(sc: Dict[str, Any]) -> bool:
+    """Trivial = a flat model converted once, with statistics that are current anyway."""
+    stale, ints, opts = False, 0, set()
+    dirty = False
+    for e in sc["ev"]:
+        if e["a"] == "upd":
+            dirty = True
+        elif e["a"] == "fwd":
+            dirty = False
+        else:
+            ints += 1
+            opts.add((e["backend"], e["sb"], e["sp"]))
+            stale = stale or dirty
+    return stale or len(opts) > 1 or sc["model"]["nest"] != "flat"
+
+
 def _net_nontrivial(tr: Dict[str, Any]) -> bool:
     """Trivial = no element observed at / across a level boundary: every layer agrees exactly with its fake-quantised
     counterpart and never saturates."""
@@ -254,7 +326,12 @@ def run(tier: str, seed: int, replay=None) -> int:
               "final conv; weight/activation bits in {2,4,8}, 70% with one activation precision everywhere; PACT clip in "
               "{1, 2.5, 6}) x backend (MATCH scale_bit 16/24/32, shift_pos 16/24/31; MAUPITI). Non-trivial: tiny = "
               "non-zero accumulator; approx = a bias of at least 2^20 in magnitude; net = some layer differs from its "
-              "fake-quantised image by a level or saturates, or the real code raised.")
+              "fake-quantised image by a level or saturates, or the real code raised. life: one history of maximal length of "
+              "IntegerizeLife ending with a conversion (events: forward, weight update by load_state_dict / optimizer step / "
+              "in-place edit, integerize_arch(deepcopy) with MATCH options omitted / (32,31) / scale_bit only / ... or MAUPITI) "
+              "x model (flat, Sequential root, nested blocks, ModuleDict+ModuleList, aliased attributes; quick: nest assigned "
+              "round-robin, thorough: every nest for length 3); non-trivial = a conversion after an update with no forward in "
+              "between, or two different option sets, or a nested model.")
     R.assumptions = [
         "the fake-quantised counterpart is evaluated by the real Quant* layer (float32) on the dequantised image of the "
         "integer network's own activations; the integer accumulators and the exact bounds are recomputed by the harness in "
@@ -264,7 +341,11 @@ def run(tier: str, seed: int, replay=None) -> int:
         "same operands",
         "MAUPITI's scale_bit / shift_pos are the constants 16 / 32 of its code; the ShiftSelect prediction for it needs "
         "big-number arithmetic in TLC and is evaluated on a seeded sample of the replays only (property clauses: all)",
-        "per-channel weight precision (QuantList), 1-D layers, average pooling, residual topologies and the ONNX "
+        "histories: the conversion works on a deep copy of the fake-quantised model (F22), so a conversion does not refresh "
+        "the statistics of the model itself; weight versions are made by scaling every weight/bias tensor by 1.6 or 0.55 plus "
+        "10% uniform noise, so that the scale of every version is distinct",
+        "per-channel weight precision (QuantList), 1-D layers (integerize_arch raises AttributeError on a QuantConv1d: the "
+        "backends only map Conv2d/Linear), average pooling, residual topologies and the ONNX "
         "exporters / annotators are outside this check",
         "PACT clip values are 1, 2.5 or 6 (top-level gap of the stabiliser = 1 level); MATCH dilation on both axes or with a "
         "non-unit kernel on the other axis raises the documented ValueError and is skipped and counted",
@@ -298,7 +379,7 @@ def run(tier: str, seed: int, replay=None) -> int:
                                 R, workers=W)
 
     # ---- 2. spec -> code ----------------------------------------------------------------------------------
-    tiny = _tiny_scenarios(layer_states, rng, all_combos=not quick, n_states=5000 if quick else 0,
+    tiny = _tiny_scenarios(layer_states, rng, all_combos=not quick, n_states=3500 if quick else 0,
                            n_predict_mau=40 if quick else 400)
     approx = _approx_scenarios(approx_states, rng, n_predict=40 if quick else 400)
     t0 = time.time()
@@ -314,7 +395,42 @@ def run(tier: str, seed: int, replay=None) -> int:
     R.validate("IntegerizeTrace", "IntegerizeTrace", approx_tr, approx, label="_integer_approximation",
                nontrivial=lambda s: any(abs(b) >= 2 ** 20 for b in s["bs"]), workers=W, chunk=6000)
 
-    # ---- 3. code -> spec: networks ---------------------------------------------------------------------------
+    # ---- 3. histories between export() and integerize_arch (IntegerizeLife) -------------------------------------------
+    # design level: every history of bounded length satisfies the life-cycle invariants; three wrong transcriptions
+    # (stale statistics, sticky process defaults, layers registered under flat names only) must violate theirs
+    for bad, inv in (("stale", "CurrentStats"), ("sticky", "OptionsOfThisCall"), ("flatnames", "AllReplaced")):
+        res = R.design("IntegerizeLife", f"IntegerizeLife_{bad}", expect_ok=False, workers=2)
+        if res.violations[0]["name"] != inv:
+            raise tlc.MachineryError(f"sanity config {bad}: expected {inv} to fail, got {res.violations[0]['name']}")
+    life = []
+    if quick:
+        life += _life_scenarios(dump_states("IntegerizeLife", "IntegerizeLife_quick", R, workers=4), 3, 2, rng, False)
+        life += _life_scenarios(dump_states("IntegerizeLife", "IntegerizeLife_kinds", R, workers=4), 2, 2, rng, False)
+        life += _life_scenarios(dump_states("IntegerizeLife", "IntegerizeLife_nests", R, workers=4), 1, 2, rng, False)
+    else:
+        life += _life_scenarios(dump_states("IntegerizeLife", "IntegerizeLife_thorough", R, workers=4), 3, 4, rng, True)
+        life += _life_scenarios(dump_states("IntegerizeLife", "IntegerizeLife_thorough4", R, workers=4), 4, 4, rng, False)
+        life += _life_scenarios(dump_states("IntegerizeLife", "IntegerizeLife_nests_thorough", R, workers=4), 2, 4, rng, False)
+    t0 = time.time()
+    for m in {_canon(sc["model"]): sc["model"] for sc in life}.values():
+        intnet.get_fake(m)                      # built once here; the per-scenario child processes inherit them
+    life_tr = intnet.run_isolated(life)         # one forked process per history: process-level state cannot leak
+    ints = [e for t in life_tr for e in t["ev"] if e["a"] == "int"]
+    R.extra["life"] = {
+        "histories_replayed": len(life), "conversions_observed": len(ints),
+        "conversions_after_update_without_forward": sum(1 for sc in life if _life_nontrivial(sc)),
+        "models": len({_canon(sc["model"]) for sc in life}),
+        "nests": {n: sum(1 for sc in life if sc["model"]["nest"] == n) for n in intnet.NESTS},
+        "integer_layers_compared": sum(len(e["obs"]["layers"]) for e in ints),
+        "wall_s": round(time.time() - t0, 1)}
+    R.sample({"scenario": life[-1], "observed": [
+        {"event": i + 1, "census": e["obs"]["census"], "layers": [{k: l[k] for k in ("name", "sw_ver", "wint_ver", "used_sb", "used_sp",
+                                                                                 "shift", "maxdiff")} for l in e["obs"]["layers"]]}
+        for i, e in enumerate(life_tr[-1]["ev"]) if e["a"] == "int"]})
+    R.validate("IntegerizeTrace", "IntegerizeTrace", life_tr, life, label="histories export -> updates -> conversions",
+               nontrivial=_life_nontrivial, workers=W, chunk=1500)
+
+    # ---- 4. code -> spec: networks ---------------------------------------------------------------------------
     nets = net_scenarios(rng, 80 if quick else 2500)
     t0 = time.time()
     net_tr = intnet.run_scenarios(nets)
